@@ -1,6 +1,7 @@
 import Ts.Model
 import Ts.Resolve
 import Ts.Cycle
+import Ts.Order
 namespace TsDrv
 open Ts
 
@@ -24,6 +25,15 @@ partial def loop (h : IO.FS.Stream) (g : G) : IO Unit := do
     let l := if ans = "-" then [] else (ans.splitOn ",").filterMap (·.toNat?)
     IO.println (if g.cycleAnswerOK seed.toNat! l then "ok" else "bad")
     loop h g
+  | ["ord", its, ord] =>
+    -- its: `p,p:r,r;…` (entity numbers; empty lists as `-`), ord: resolved positions
+    let pl := fun (s : String) => if s = "-" || s = "" then [] else (s.splitOn ",").filterMap (·.toNat?)
+    let items := (its.splitOn ";").filterMap fun s => match s.splitOn ":" with
+      | [p, r] => some (⟨pl p, pl r⟩ : Ord.Item)
+      | _ => none
+    IO.println (if Ord.orderValid items (pl ord) then "ok" else "bad")
+    loop h g
+  | "nop" :: _ => IO.println "ok"; loop h g
   | "res" :: its =>
     let pl := fun (s : String) => if s = "" then [] else (s.splitOn ",").filterMap (·.toNat?)
     let items := its.filterMap fun s => match s.splitOn ":" with
